@@ -112,12 +112,12 @@ static std::string jstr(const std::string& s) {
 }
 
 int main(int argc, char** argv) {
-    std::string alphabet = "smoke", oracles, scratch, out, replayStr, tier = "quick", saveFile; int depth = 3, workers = 16; size_t maxStates = 3000000; double deadlineS = 1e9, hang = 30; bool list = false, dump = false;
+    std::string alphabet = "smoke", oracles, scratch, out, replayStr, tier = "quick", saveFile, transcript; int depth = 3, workers = 16; size_t maxStates = 3000000; double deadlineS = 1e9, hang = 30; bool list = false, dump = false;
     for (int i = 1; i < argc; ++i) {
         std::string a = argv[i]; auto nxt = [&]() { if (i + 1 >= argc) { fprintf(stderr, "missing value for %s\n", a.c_str()); exit(2); } return std::string(argv[++i]); };
         if (a == "--alphabet") alphabet = nxt(); else if (a == "--oracles") oracles = nxt(); else if (a == "--depth") depth = atoi(nxt().c_str()); else if (a == "--workers") workers = atoi(nxt().c_str());
         else if (a == "--maxstates") maxStates = (size_t)atoll(nxt().c_str()); else if (a == "--deadline") deadlineS = atof(nxt().c_str()); else if (a == "--scratch") scratch = nxt(); else if (a == "--out") out = nxt();
-        else if (a == "--replay") replayStr = nxt(); else if (a == "--tier") tier = nxt(); else if (a == "--list") list = true; else if (a == "--dump") dump = true; else if (a == "--hang") hang = atof(nxt().c_str()); else if (a == "--savefile") saveFile = nxt();
+        else if (a == "--replay") replayStr = nxt(); else if (a == "--tier") tier = nxt(); else if (a == "--list") list = true; else if (a == "--dump") dump = true; else if (a == "--hang") hang = atof(nxt().c_str()); else if (a == "--savefile") saveFile = nxt(); else if (a == "--transcript") transcript = nxt();
         else { fprintf(stderr, "unknown arg %s\n", a.c_str()); return 2; }
     }
 #ifdef VF_ASAN
@@ -126,7 +126,7 @@ int main(int argc, char** argv) {
     if (scratch.empty()) { scratch = "/dev/shm/ezc3d-verif." + std::to_string(getpid()); }
     mkdir(scratch.c_str(), 0755);
     Explorer E; Limits L; E.ops = buildAlphabet(alphabet, L, tier); E.orc = parseOracles(oracles); E.scratch = scratch; E.workers = workers; E.maxDepth = depth; E.maxStates = maxStates;
-    E.deadline = Explorer::now() + deadlineS; E.hangSecs = hang; E.alphabetName = alphabet;
+    E.deadline = Explorer::now() + deadlineS; E.hangSecs = hang; E.alphabetName = alphabet; E.transcriptPath = transcript; if (!transcript.empty()) unlink(transcript.c_str());
     if (list) { for (auto& o : E.ops) printf("%s\n", o.name.c_str()); return 0; }
 
     if (!replayStr.empty() || dump) {     // linear replay without the explorer
